@@ -326,6 +326,7 @@ pub const SCENARIOS: &[&str] = &[
     "ids-2x36",
     "dl-3x2",
     "dl-2x3-mixed",
+    "dl-2x2-forwarded",
     "ring2",
     "ring3",
     "ring2-plus-bystander",
@@ -360,7 +361,7 @@ fn idle_rt() -> tokio::runtime::Runtime {
 pub fn run_scenario(scenario: &str, prefix: &[u8]) -> (Exec, Outcome) {
     match scenario {
         "ids-3x2" | "ids-2x3-mixed" | "ids-1x70" | "ids-2x36" => run_ids(scenario, prefix),
-        "dl-3x2" | "dl-2x3-mixed" => run_dl(scenario, prefix),
+        "dl-3x2" | "dl-2x3-mixed" | "dl-2x2-forwarded" => run_dl(scenario, prefix),
         "ring2" | "ring3" | "ring2-plus-bystander" => run_ring(scenario, prefix),
         "ask-vs-kill" | "ask-vs-stop" | "ask-vs-drop" | "tell-vs-stop" => run_send_vs_end(scenario, prefix),
         "failing-ask-vs-ask" => run_failing_ask(prefix),
@@ -421,7 +422,12 @@ fn run_ids(scenario: &str, prefix: &[u8]) -> (Exec, Outcome) {
 #[cfg(feature = "f_testutils")]
 fn run_dl(scenario: &str, prefix: &[u8]) -> (Exec, Outcome) {
     use futures::FutureExt;
-    let (threads, per, mixed) = if scenario == "dl-3x2" { (3, 2, false) } else { (2, 3, true) };
+    let (threads, per, mixed) = match scenario {
+        "dl-3x2" => (3, 2, false),
+        "dl-2x3-mixed" => (2, 3, true),
+        _ => (2, 2, false),
+    };
+    let forwarded = scenario == "dl-2x2-forwarded";
     let setup = idle_rt();
     let dead = setup.block_on(async {
         let (r, jh) = rsactor::spawn::<Tiny>(());
@@ -436,6 +442,16 @@ fn run_dl(scenario: &str, prefix: &[u8]) -> (Exec, Outcome) {
     }
     rsactor::reset_dead_letter_count();
     let failures = Arc::new(std::sync::atomic::AtomicU64::new(0));
+    if forwarded {
+        // the subscriber forwards every dead letter to a sink actor that has ended as well: that send fails too
+        let sink_actor = dead.clone();
+        let failures = failures.clone();
+        *crate::msched::FORWARD.lock().unwrap_or_else(|e| e.into_inner()) = Some(Arc::new(move || {
+            if sink_actor.tell(Ping).now_or_never().map(|x| x.is_err()).unwrap_or(false) {
+                failures.fetch_add(1, std::sync::atomic::Ordering::SeqCst);
+            }
+        }));
+    }
     let mut bodies: Vec<Box<dyn FnOnce() + Send>> = Vec::new();
     for t in 0..threads {
         let r = dead.clone();
@@ -454,13 +470,15 @@ fn run_dl(scenario: &str, prefix: &[u8]) -> (Exec, Outcome) {
         }));
     }
     let ex = run_threads(prefix, bodies);
+    *crate::msched::FORWARD.lock().unwrap_or_else(|e| e.into_inner()) = None;
+    let expected_failures = (threads * per) as u64 * if forwarded { 2 } else { 1 };
     let counted = rsactor::dead_letter_count();
     let records = crate::msched::BT_SINK.lock().unwrap_or_else(|e| e.into_inner()).dls.len() as u64;
     crate::msched::BT_ACTIVE.store(false, std::sync::atomic::Ordering::SeqCst);
     let f = failures.load(std::sync::atomic::Ordering::SeqCst);
     let mut v = Vec::new();
-    if f != (threads * per) as u64 && ex.error.is_none() {
-        v.push(("C13 machinery".to_string(), format!("{f} of {} sends failed", threads * per)));
+    if f != expected_failures && ex.error.is_none() {
+        v.push(("C13 machinery".to_string(), format!("{f} of {expected_failures} sends failed")));
     }
     if counted != f {
         v.push(("C13 counter equals the number of failures under any concurrency".to_string(), format!("{f} deliveries failed, dead_letter_count() advanced by {counted}")));
